@@ -84,8 +84,8 @@ var loopbackCounter uint32
 
 func uniqueLoopback() string {
 	n := atomic.AddUint32(&loopbackCounter, 1)
-	a := 1 + (uint32(os.Getpid())+n>>16)%120 // never 127.0.x.x
-	return fmt.Sprintf("127.%d.%d.%d", a, (n>>8)&255, 1+n%250)
+	a := 1 + (uint32(os.Getpid())+n/62500)%120 // never 127.0.x.x
+	return fmt.Sprintf("127.%d.%d.%d", a, (n/250)%250, 1+n%250)
 }
 
 func (s *server) poke() {
